@@ -188,11 +188,11 @@ def c01(tier, seed, t0):
 
 def relations(prop, tier, seed, t0, what, bounds_extra):
     from harness import relations as H
-    n = int(os.environ.get("VERIF_N", 0)) or ({"C18": 60, "C17": 120, "C19": 30}[prop] if tier == "quick" else {"C18": 400, "C17": 600, "C19": 240}[prop])
+    n = int(os.environ.get("VERIF_N", 0)) or ({"C18": 60, "C17": 400, "C19": 30}[prop] if tier == "quick" else {"C18": 400, "C17": 2000, "C19": 240}[prop])
     budget = 150 if tier == "quick" else 2400
     res = R.run_pool(H.HNAME, H.chunks(prop, tier, n), budget, seed, tier,
                      extra=dict(sample_rate=0.1 if tier == "quick" else 0.03, chunk_time=120 if tier == "quick" else 300,
-                                max_slots=3 if tier == "quick" else 4, max_paths={"C18": 120, "C17": 150, "C19": 160}[prop] * (1 if tier == "quick" else 4)))
+                                max_slots=(5 if prop == "C17" else 3) if tier == "quick" else (6 if prop == "C17" else 4), max_paths={"C18": 120, "C17": 150, "C19": 160}[prop] * (1 if tier == "quick" else 4)))
     agg = R.merge(res)
     bounds = dict(program_instances=n, generator="harness/families.py", **bounds_extra)
     return R.report(prop, H.HNAME, tier, seed, agg, t0, bounds, functions=PIPE_FUNCS, assumptions=[what])
@@ -212,7 +212,8 @@ def c18(tier, seed, t0):
 def c17(tier, seed, t0):
     return relations("C17", tier, seed, t0,
                      "lemma L4 over comment / string / char contents drawn from the code-like alphabet (no backslash, newline, closing delimiter)",
-                     dict(symbolic="contents of <=3 (quick) / 4 (thorough) comment, string and character-constant slots per file",
+                     dict(symbolic="contents of <=5 (quick) / 6 (thorough) comment, string and character-constant slots per file; no trigraph / digraph "
+                                   "can form in them (another source width) except in the dedicated template a11.c",
                           alphabet="A-Za-z0-9 space _+-*/%<>=!&|^~?:;,.(){}[]#@$ and the other kind of quote",
                           comment_positions="own line at file level (block, //, multi-line), end of line after globals/prototypes/includes/defines, one variant inside a function",
                           outside="42 header comment, #include strings, tabs in replacement text, content longer than 5"))
